@@ -22,11 +22,11 @@ def body_template(x):
     tx = model.text
     if cname == "NoneItem":
         return ""
-    if cname in ("Word", "Phrase", "Regex"):
+    if cname in ("Word", "Phrase", "Regex", "Term"):
         return x.value
     if cname == "SearchField":
         return x.name + ":" + tx(x.expr)
-    if cname in ("Group", "FieldGroup"):
+    if cname in ("Group", "FieldGroup", "BaseGroup"):
         return "(" + tx(x.expr) + ")"
     if cname == "Range":
         lo = SymStr(z3.If(B(x.include_low), z3.StringVal("["), z3.StringVal("{")))
